@@ -227,8 +227,11 @@ inline Session::Channel::Channel(Session& session, std::size_t queueCapacity, Wr
   // next to each other.
   char* buffer = _queue.get();
 
-  // The magic number is used to indentify the queue in the memory dump
-  new (buffer) std::uint64_t(0xFE213F716D34BCBC);
+  // The magic number is used to indentify the queue in the memory dump.
+  // It is set last: a dump taken during construction must not show a magic number
+  // followed by whatever the freshly allocated memory happens to contain.
+  char* magicBuffer = buffer;
+  new (magicBuffer) std::uint64_t(0);
   buffer += sizeof(std::uint64_t);
 
   // Session* is used to separate the queues of different sessions of the program
@@ -243,6 +246,9 @@ inline Session::Channel::Channel(Session& session, std::size_t queueCapacity, Wr
   char* queueBuffer = buffer + sizeof(detail::Queue);
   new (buffer) detail::Queue(queueBuffer, queueCapacity);
   BINLOG_VERIF_POINT("channel-queue-constructed");
+
+  std::atomic_signal_fence(std::memory_order_release); // keep the compiler from moving the magic number up
+  new (magicBuffer) std::uint64_t(0xFE213F716D34BCBC);
 }
 
 inline Session::Channel::~Channel()
